@@ -101,7 +101,7 @@ def main():
             oblig = kv.count_obligations(res, uname)
             times = kv.fn_times(res)
             scan = kv.trusted_scan(u.gen_text)
-            info = {'unit': uname, 'u': u, 'res': res, 'oblig': oblig, 'times': times, 'scan': scan, 'ntok': ntok}
+            info = {'unit': uname, 'u': u, 'res': res, 'oblig': oblig, 'times': times, 'scan': scan, 'ntok': ntok, 'und': und, 'nfail': len(fails)}
             unit_infos.append(info)
             # vacuity probe
             if not args.no_probe and not und:
@@ -159,9 +159,15 @@ def main():
                 continue
             vname = v.name()
             air = info['unit'] + '::' + getattr(v, 'air', '?')
-            cnt = sum(c for k, c in info['oblig'].items() if re.fullmatch(air, k))
-            tsec = sum(c for k, c in info['times'].items() if re.fullmatch(air, k))
+            if '@' in air:
+                cnt = sum(c for k, c in info['oblig'].items() if '@' in k and re.fullmatch(air, k))
+            else:
+                cnt = sum(c for k, c in info['oblig'].items() if '@' not in k and re.fullmatch(air, k))
+            tsec = sum(c for k, c in info['times'].items() if re.fullmatch(air.split('@')[0], k))
             fns.append({'function': vname, 'obligations': cnt, 'solver_s': round(tsec, 3)})
+            if cnt == 0 and info['oblig'] and not info['und'] and not info['nfail'] and getattr(v, 'has_body', True):
+                # every function under contract carries at least its postcondition: zero means the log name drifted
+                undecided.append('%s: no obligation counted for %s (AIR name pattern %s matches nothing)' % (info['unit'], vname, air))
             n_obl += cnt
             solver_s += tsec
         for lo, hi, lab, origin in u.label_spans:
